@@ -299,6 +299,11 @@ class ExprCanon(ast.NodeTransformer):
                     return _loc(ast.Call(func=_loc(ast.Name(id="dict", ctx=ast.Load()), node), args=[it.func.value], keywords=[]), node)
         return node
 
+    def visit_SetComp(self, node):
+        # {f(x) for x in X} -> set(f(x) for x in X)
+        self.generic_visit(node)
+        return _loc(ast.Call(func=_loc(ast.Name(id="set", ctx=ast.Load()), node), args=[_loc(ast.GeneratorExp(elt=node.elt, generators=node.generators), node)], keywords=[]), node)
+
     def visit_IfExp(self, node):
         self.generic_visit(node)
         if isinstance(node.test, ast.Constant) and (node.test.value is None or isinstance(node.test.value, bool)):
@@ -312,6 +317,10 @@ class ExprCanon(ast.NodeTransformer):
                 return _loc(ast.Call(func=_loc(ast.Attribute(value=X, attr="get", ctx=ast.Load()), node), args=[k, orelse], keywords=[]), node)
         if isinstance(t, ast.UnaryOp) and isinstance(t.op, ast.Not):
             return _loc(ast.IfExp(test=t.operand, body=node.orelse, orelse=node.body), node)
+        # b'\x01' if c else b'\x00'  ->  pack('B', 1 if c else 0)   (one unsigned byte either way)
+        if all(isinstance(x, ast.Constant) and isinstance(x.value, bytes) and len(x.value) == 1 for x in (node.body, node.orelse)):
+            pick = _loc(ast.IfExp(test=node.test, body=_loc(ast.Constant(value=node.body.value[0]), node), orelse=_loc(ast.Constant(value=node.orelse.value[0]), node)), node)
+            return _loc(ast.Call(func=_loc(ast.Name(id="pack", ctx=ast.Load()), node), args=[_loc(ast.Constant(value="B"), node), pick], keywords=[]), node)
         return node
 
     def visit_Call(self, node):
@@ -329,6 +338,14 @@ class ExprCanon(ast.NodeTransformer):
         if (consumer or lazy_ok) and len(node.args) == 1 and not node.keywords and isinstance(node.args[0], ast.ListComp):
             lc = node.args[0]
             node.args = [_loc(ast.GeneratorExp(elt=lc.elt, generators=lc.generators), lc)]
+        # struct.unpack(..) -> unpack(..);  Struct(F).unpack(X) -> unpack(F, X)  (same for pack / unpack_from / pack_into / calcsize)
+        if isinstance(f0, ast.Attribute) and f0.attr in ("pack", "unpack", "unpack_from", "pack_into", "iter_unpack"):
+            v = f0.value
+            if isinstance(v, ast.Name) and v.id == "struct":
+                node.func = _loc(ast.Name(id=f0.attr, ctx=ast.Load()), f0)
+            elif isinstance(v, ast.Call) and not v.keywords and len(v.args) == 1 and ((isinstance(v.func, ast.Name) and v.func.id == "Struct") or (isinstance(v.func, ast.Attribute) and v.func.attr == "Struct" and isinstance(v.func.value, ast.Name) and v.func.value.id == "struct")):
+                node.func = _loc(ast.Name(id=f0.attr, ctx=ast.Load()), f0)
+                node.args = [v.args[0]] + list(node.args)
         # 'literal {} {!r}'.format(a, b) -> f-string
         f = node.func
         if isinstance(f, ast.Attribute) and f.attr == "format" and isinstance(f.value, ast.Constant) and isinstance(f.value.value, str) and not node.keywords and not any(isinstance(a, ast.Starred) for a in node.args):
@@ -414,8 +431,22 @@ def _split_tuple_assigns(stmts):
                 if not pairs:
                     out.append(_loc(ast.Pass(), s))
                 continue
+        # `(v,) = unpack(<one-item format>, X)` -> `v = unpack(<fmt>, X)[0]`  (the result has exactly one item)
+        if isinstance(s, ast.Assign) and len(s.targets) == 1 and isinstance(s.targets[0], (ast.Tuple, ast.List)) and len(s.targets[0].elts) == 1 and isinstance(s.targets[0].elts[0], ast.Name) and _one_item_unpack(s.value):
+            out.append(_loc(ast.Assign(targets=[s.targets[0].elts[0]], value=_loc(ast.Subscript(value=s.value, slice=_loc(ast.Constant(value=0), s), ctx=ast.Load()), s)), s))
+            continue
         out.append(s)
     return out
+
+
+def _one_item_unpack(e):
+    if not (isinstance(e, ast.Call) and isinstance(e.func, ast.Name) and e.func.id == "unpack" and len(e.args) == 2 and not e.keywords):
+        return False
+    f = e.args[0]
+    if not (isinstance(f, ast.Constant) and isinstance(f.value, str)):
+        return False
+    body = f.value.lstrip("@=<>!")
+    return len(body) == 1 and body.isalpha() and body not in "xsp"
 
 
 def _strip_annotations(stmts):
@@ -844,6 +875,32 @@ def _strip_tail_returns(stmts):
     return stmts
 
 
+class _BreakToReturn(ast.NodeTransformer):
+    def visit_Break(self, n):
+        return _loc(ast.Return(value=None), n)
+
+    def _stop(self, n):
+        return n
+
+    visit_For = visit_AsyncFor = visit_While = visit_FunctionDef = visit_AsyncFunctionDef = visit_Lambda = visit_ClassDef = _stop
+
+
+def _tail_breaks_to_returns(stmts):
+    """`break` out of a loop that is the last statement of a function returning nothing is `return`"""
+    if not stmts:
+        return stmts
+    last = stmts[-1]
+    if isinstance(last, (ast.For, ast.AsyncFor, ast.While)):
+        t = _BreakToReturn()
+        last.body = [t.visit(x) for x in last.body]
+    elif isinstance(last, (ast.With, ast.AsyncWith)):
+        _tail_breaks_to_returns(last.body)
+    elif isinstance(last, ast.If):
+        _tail_breaks_to_returns(last.body)
+        _tail_breaks_to_returns(last.orelse)
+    return stmts
+
+
 def _strip_tail_continue(stmts):
     """`continue` in tail position of a loop body is the same as reaching the end of the body"""
     if not stmts:
@@ -858,6 +915,57 @@ def _strip_tail_continue(stmts):
     elif isinstance(last, (ast.With, ast.AsyncWith)):
         last.body = _strip_tail_continue(last.body)
     return stmts
+
+
+def _reuse_bound_subscripts(fnode):
+    """after `V = B['k']` (B a plain name, 'k' a string literal) a later `B['k']` in the rest of the block is `V`,
+    provided neither V nor B is rebound and no `B[...]` is stored or deleted in that rest"""
+    changed = False
+
+    def blocks(n):
+        for f in ("body", "orelse", "finalbody"):
+            lst = getattr(n, f, None)
+            if isinstance(lst, list) and lst and isinstance(lst[0], ast.stmt):
+                yield lst
+        for h in getattr(n, "handlers", []) or []:
+            yield h.body
+
+    todo = [fnode]
+    while todo:
+        n = todo.pop()
+        for lst in blocks(n):
+            for i, s in enumerate(lst):
+                if isinstance(s, (ast.FunctionDef, ast.AsyncFunctionDef, ast.ClassDef)):
+                    continue
+                todo.append(s)
+                if not (isinstance(s, ast.Assign) and len(s.targets) == 1 and isinstance(s.targets[0], ast.Name)):
+                    continue
+                e = s.value
+                if not (isinstance(e, ast.Subscript) and isinstance(e.value, ast.Name) and isinstance(e.slice, ast.Constant) and isinstance(e.slice.value, str)):
+                    continue
+                V, B = s.targets[0].id, e.value.id
+                if V == B:
+                    continue
+                rest = lst[i + 1:]
+                inside = [x for r in rest for x in ast.walk(r)]
+                if any(isinstance(x, ast.Name) and x.id in (V, B) and isinstance(x.ctx, (ast.Store, ast.Del)) for x in inside):
+                    continue
+                if any(isinstance(x, ast.Subscript) and isinstance(x.ctx, (ast.Store, ast.Del)) and isinstance(x.value, ast.Name) and x.value.id == B for x in inside):
+                    continue
+                if any(isinstance(x, (ast.FunctionDef, ast.AsyncFunctionDef, ast.Lambda, ast.ClassDef, ast.Global, ast.Nonlocal)) for x in inside):
+                    continue
+                key = _dump(e)
+                for x in inside:
+                    for f, v in ast.iter_fields(x):
+                        if isinstance(v, ast.Subscript) and isinstance(v.ctx, ast.Load) and _dump(v) == key:
+                            setattr(x, f, _loc(ast.Name(id=V, ctx=ast.Load()), v))
+                            changed = True
+                        elif isinstance(v, list):
+                            for j, y in enumerate(v):
+                                if isinstance(y, ast.Subscript) and isinstance(y.ctx, ast.Load) and _dump(y) == key:
+                                    v[j] = _loc(ast.Name(id=V, ctx=ast.Load()), y)
+                                    changed = True
+    return changed
 
 
 def _propagate_constants(fnode):
@@ -1226,10 +1334,12 @@ def swap_if(s):
 def canon_stmt(s):
     if isinstance(s, (ast.FunctionDef, ast.AsyncFunctionDef)):
         if not _returns_value(s):
-            s.body = _strip_tail_returns(s.body)
+            s.body = _tail_breaks_to_returns(_strip_tail_returns(s.body))
         s.body = canon_block(s.body)
         if not _returns_value(s):
             s.body = canon_block(_strip_tail_returns(s.body))
+        if _reuse_bound_subscripts(s):
+            s.body = canon_block(s.body)
         if _inline_single_use(s):
             s.body = canon_block(s.body)
         if _propagate_constants(s):
